@@ -14,13 +14,16 @@
      * C01_safety_partial : no schedule of an accepted program of the fragment reaches an error in
        asynchronous or synchronous mode — premises: teq_ok, tc_annotations_typed, topo_reachable
        (see proofs/RtTheorems.v).
+     * C01_static_check_sound / C01_safety_checked_partial : the premise tc_annotations_typed is
+       replaced by the verdict of a verified checker on the annotated program (run on the whole
+       suite by lib/vlib/props/C01.py);
    NOT proved: `safety_statement` (contraction: split / DUP / several provider names; and the
    non-polarized mode): covered by the correspondence run only. *)
 From stdpp Require Import gmap strings.
 Require Import Grits.Base Grits.ModeDefs Grits.Modes Grits.STypes Grits.Forms Grits.Subst Grits.TcDeps Grits.Expand
                Grits.Tc Grits.TcTop Grits.Runtime Grits.spec.RtTyping Grits.spec.Topo
                Grits.proofs.StepErrors Grits.proofs.RtSubst Grits.proofs.RtEffect Grits.proofs.RtSafety
-               Grits.proofs.RtInit Grits.proofs.RtTheorems.
+               Grits.proofs.RtInit Grits.proofs.RtTheorems Grits.proofs.RtStaticCheck.
 
 Theorem C01_step_error_inv : forall md D F c ch who e,
   step md D F c ch = SError who e <-> step_err md D F c ch who e.
@@ -80,6 +83,27 @@ Theorem C01_safety_partial : forall teqD : tenv -> sty -> sty -> Prop,
     exec_run fuel pick md (p_types p') (p_funs p') (init_config p') <> RError c who e.
 Proof. exact safety_partial. Qed.
 
+(* the premise tc_annotations_typed is DECIDED per program by a verified checker (run by the check
+   module on every program of the suite): where it answers SV_typed the annotated output of the
+   typechecker satisfies the run-time judgement, with the equality the Go code computes *)
+Theorem C01_static_check_sound : forall txt, static_check_text txt = SV_typed ->
+  exists p p', parse_string txt = POk p /\ typecheck p = Accept p' /\ in_fragment p' /\
+               static_typed (teq_alg (p_types p')) p'.
+Proof. exact static_check_sound. Qed.
+
+Theorem C01_safety_checked_partial : forall txt p p' md,
+  parse_string txt = POk p -> typecheck p = Accept p' -> static_check_text txt = SV_typed ->
+  teq_laws (p_types p') (teq_alg (p_types p')) ->
+  (forall c, reachable (p_types p') (p_funs p') md (init_config p') c -> Topo c) ->
+  is_np md = false ->
+  forall fuel pick c who e,
+    exec_run fuel pick md (p_types p') (p_funs p') (init_config p') <> RError c who e.
+Proof. exact safety_checked_partial. Qed.
+
+Example C01_static_check_examples :
+  static_check_text example_text = SV_typed /\ static_check_text example_drop_text = SV_typed.
+Proof. exact static_check_examples. Qed.
+
 (* non-vacuity: a concrete accepted program of the fragment (cut, call, ⊗, ⊸, 1, print) runs to
    quiescence without error, prints both labels and leaves no process — first-enabled and
    last-enabled schedules *)
@@ -107,5 +131,8 @@ Print Assumptions C01_no_error_polarized.
 Print Assumptions C01_topo_closed_unused.
 Print Assumptions C01_initial_typed.
 Print Assumptions C01_safety_partial.
+Print Assumptions C01_static_check_sound.
+Print Assumptions C01_safety_checked_partial.
+Print Assumptions C01_static_check_examples.
 Print Assumptions C01_example_in_fragment.
 Print Assumptions C01_example_runs.
